@@ -1690,6 +1690,14 @@ def run(ck: Ck) -> None:
     for st, pfxs in stage_fmt.items():
         if st in stage_failed and any(k.startswith(pfxs) for k in keys):
             ck.explain(f'stage:{st}')
+    # the translator failed closed on a method: explained by a failing input of the format that method belongs to
+    for o in ck.obligations:
+        if o['name'] == 'translate:DmxCodes_gen' and not o['ok']:
+            det = str(o.get('detail', ''))
+            fmts = [pf for words, pf in ((('export_kv2', 'parse_kv2', '_kv2_'), 'kv2'), (('export_binary', 'parse_bin'), 'binary'),
+                                        (('from_kv1', 'to_kv1'), 'kv1-bridge')) if any(w in det for w in words)]
+            if fmts and any(k.startswith(tuple(fmts)) for k in keys):
+                ck.explain('translate:DmxCodes_gen')
 
 
 def replay(data: dict) -> int:
